@@ -443,6 +443,34 @@ def run_case(ck, desc):
             ck.count(f"zero_size_forms_checked.{len(shp)}-d")
             if oz.shape != shp or oz.dtype.kind != "f":
                 ck.violation("same-shape", {"fn": desc["fn"], "form": f"zero-size {len(shp)}-d", "got": list(oz.shape), "want": list(shp), "dtype": str(oz.dtype)}, desc)
+    # gaps in gauge data: the same array with some cells blank (NaN). Nothing is claimed about the value AT a
+    # blank cell; the caller's array is left as it is - blanks included -, the result has its shape and the
+    # other cells are what they were
+    if view.shape[0] >= 3 and view.dtype.kind == "f":
+        gappy = np.array(view, copy=True)
+        gappy[[1, gappy.shape[0] // 2]] = np.nan
+        if view.shape[0] >= 6:
+            gappy = np.concatenate([gappy, gappy])[::2].copy() if int(desc["pressures"][0] * 10) % 2 else gappy
+        keep_ = gappy.copy()
+        try:
+            with np.errstate(all="ignore"), warnings.catch_warnings():
+                warnings.simplefilter("ignore")
+                og = np.asarray(arr_call(gappy))
+        except Exception as e:  # noqa: BLE001
+            ck.count(f"arrays_with_blank_cells_not_accepted.{type(e).__name__}")
+            og = None
+        if og is not None:
+            ck.count("arrays_with_blank_cells")
+            if not np.array_equal(gappy, keep_, equal_nan=True):
+                ck.violation("input-unmodified", {"fn": desc["fn"], "what": "an array with blank (NaN) cells", "cells_changed": int(np.sum(~((gappy == keep_) | (np.isnan(gappy) & np.isnan(keep_))))), "before": keep_[:4].tolist(), "after": gappy[:4].tolist()}, desc)
+            if og.shape != keep_.shape:
+                ck.violation("same-shape", {"fn": desc["fn"], "form": "array with blank cells", "got": list(og.shape), "want": list(keep_.shape)}, desc)
+            else:
+                for k in np.flatnonzero(np.isfinite(keep_))[:12]:
+                    ref = float(sc_call(float(keep_[k])))
+                    if not (abs(float(og[k]) - ref) <= 256 * eps * abs(ref) + 4 * np.finfo(float).eps * abs(ref)):
+                        ck.violation("elementwise", {"fn": desc["fn"], "k": int(k), "p": float(keep_[k]), "array": float(og[k]), "scalar": ref, "array_has_blank_cells_elsewhere": True}, desc)
+                        break
     # second call on the SAME buffer after the caller has overwritten its contents in place
     if view.shape[0] >= 2 and view.dtype.kind == "f" and not read_only:
         arr_call(view)  # (the call right before the edit sees this very array object - nothing in between)
